@@ -40,10 +40,12 @@ NA_REASONS = {
 }
 
 NOT_BUILT = "simulation target per DESIGN.md §1 but its engine is not built/sound yet in this tree, so it is not claimed"
-for _p in "C14 C22 C23 C26 C27 C35 C36 C37 C39 C42 C44 C45 C46 C48".split():
+for _p in "C14 C22 C23 C26 C27 C35 C36 C37 C39 C42 C44 C45 C46".split():
     NA_REASONS[_p] = NOT_BUILT
 
 ENGINE_INFO = {
+    "E1-cache-sim": {"path": "simkit/e1_cache.py", "serves_properties": ["C48"],
+                     "kind_free_text": "multi-process simulation of cythonize on a shared cache directory with seeded scheduling of Cache.py I/O steps, kill and disk-error injection"},
     "E10-stream": {"path": "simkit/e10_stream.py", "serves_properties": ["C50"],
                    "kind_free_text": "simulated short-reading input stream under the real Plex scanner; chunking-independence + reference matcher"},
     "E9-iotree": {"path": "simkit/e9_iotree.py", "serves_properties": ["C49"],
@@ -51,6 +53,12 @@ ENGINE_INFO = {
 }
 
 CHECKS = {
+    "C48": {
+        "engine": "E1-cache-sim", "level": "exploration", "design_ref": "DESIGN.md §4 E1",
+        "technique": "deterministic simulation with fault injection: real cythonize/compile processes sharing one cache directory, parked at every Cache.py I/O call and released one at a time by a seeded scheduler that also injects SIGKILL and ENOSPC/EIO; every successful invocation is compared with a fresh uncached compilation; ddmin-minimised history as replay",
+        "text": "Seeded histories (edit source/dependency, revert, change one option or directive, break/fix syntax, restart, fresh checkout, tiny eviction threshold) over 1-3 checkouts sharing a cache, with 0-2 overlapping invocations interleaved at Cache.py seam points and faults (process kill, disk errors) placed inside cache operations. Oracle: an invocation that reports success wrote exactly what a fresh uncached compilation of the same inputs and options writes, and fails when that fails; after the last fault a fresh checkout builds correctly from the surviving cache. Sampling, not proof.",
+        "note": "cythonize compilation cache only; the cython.inline module cache clause is NOT covered by this check (see DESIGN.md §6 F3). A simulated process is one invocation (in-process memoisation such as Cache.file_hash lives for the process by design; Cython's own tests clear it between runs). Process-crash, not power-loss. Kills only at Cache.py seam points. Projects are small generated trees (<=3 modules, .pxd chain, .pxi).",
+    },
     "C50": {
         "engine": "E10-stream", "level": "exploration", "design_ref": "DESIGN.md §4 E10",
         "technique": "deterministic simulation of the scanner's input stream: seeded short-read chunkings (fault kind: short read / refill inside a token) of the same text must give identical token sequences; whole-read result checked against an independent reference matcher; shrinking to a minimal lexicon/text/chunking replay",
